@@ -82,7 +82,7 @@ def confirm(prop, patch, script):
     return out
 
 
-def detect(prop, patch, everything=False):
+def detect(prop, patch, everything=False, only=None):
     patch = os.path.abspath(patch)
     out = {'property': prop, 'patch': patch, 'checks': {}}
     rc, o = sh('git -C %s status --porcelain' % REPO)
@@ -98,6 +98,8 @@ def detect(prop, patch, everything=False):
             ids = [c['property_id'] for c in man['checks']]
         else:
             ids = [prop]
+        if only:
+            ids = sorted(set(only) | {prop})
         procs = {}
         scratch = tempfile.mkdtemp(prefix='seedev_', dir='/tmp')
         env = dict(os.environ, PCBVERIF_EVIDENCE_DIR=scratch)
